@@ -173,6 +173,8 @@ Fixpoint exec (fuel : nat) (stack : list obj) (args : list (list N)) (out : list
      L ov n a1..an        sets += SpecifierSet([cells[a1], ...], prereleases=ov)       (the very objects)
      & i j                sets += sets[i] & sets[j]                                     (!V ends the run)
      P i ov               sets[i].prereleases = ov            M a ov   cells[a].prereleases = ov   (a member object, through its own reference)
+     Mi h a ov            the same assignment through the alias obtained by ITERATING sets[h]: next(s for s in sets[h] if s is cells[a]);
+                          output !noalias (and no assignment) when sets[h] does not hold that object
      c i arg inst k item | in i k item | f i arg n (k item)*n | pre i | str i           observations of sets[i]
      xc a arg k item | xf a arg n (k item)*n | xpre a                                    observations of cells[a] *)
 Fixpoint take_n (n : nat) (args : list (list N)) : list (list N) * list (list N) :=
@@ -222,6 +224,14 @@ Fixpoint wexec (fuel : nat) (w : world) (args : list (list N)) (out : list (list
       else if seqb op (asc "M") then
         match rest with
         | a :: o :: rest' => wexec fuel' (fst (wstep w (WCellOv (nat_of a) (parse_tri o)))) rest' out
+        | _ => bad_prog :: out
+        end
+      else if seqb op (asc "Mi") then
+        match rest with
+        | h :: a :: o :: rest' =>
+            if existsb (Nat.eqb (nat_of a)) (h_ms (set_at w (nat_of h)))
+            then wexec fuel' (fst (wstep w (WCellOv (nat_of a) (parse_tri o)))) rest' out
+            else wexec fuel' w rest' (asc "!noalias" :: out)
         | _ => bad_prog :: out
         end
       else if seqb op (asc "c") then
